@@ -487,12 +487,12 @@ func worker(c *vf.Ctx, arg string) {
 	}
 	r := c.Rand(stream)
 	schemaClean := k%2 == 0
-	nLogs := c.Pick(120, 600)
+	nLogs := c.Pick(70, 600)
 	if mode == "short" {
-		nLogs = c.Pick(150, 800)
+		nLogs = c.Pick(90, 800)
 	}
 	if repl {
-		nLogs = c.Pick(80, 400)
+		nLogs = c.Pick(50, 400)
 	}
 	reruns := c.Pick(3, 6)
 	shrunkSigs := map[string]bool{}
